@@ -271,6 +271,15 @@ def conc_case(draw):
     progs = [[draw(conc_op(c, i)) for i in range(draw(st.integers(1, 4)))] for c in range(n)]
     init = draw(st.lists(st.tuples(st.sampled_from([7, ('B', 250), ('B', 251)]), st.sampled_from(CPREFIXES)), max_size=3))
     schedule = draw(st.lists(st.tuples(st.integers(0, n - 1), st.one_of(st.integers(1, 8), st.sampled_from([12, 16, 24, 40]))), max_size=14))
+    if draw(st.integers(0, 3)) == 0:
+        # built on purpose: the item a client looks at (peek or pull) is the newest row and file-backed; before the client reads
+        # its value file another client takes that item and pushes a new one, which SQLite gives the same rowid
+        q = draw(st.sampled_from(CPREFIXES))
+        first = draw(st.sampled_from([('peek', q, 'front'), ('peek', q, 'back'), ('pull', q, 'front')]))
+        second = [('pull', q, draw(st.sampled_from(['front', 'back']))), ('push', ('B', 17), q, draw(st.sampled_from(['back', 'front'])))]
+        progs = [[first], second] + progs[2:]
+        init = [(draw(st.sampled_from([('B', 250), ('B', 251)])), q)]
+        schedule = [(0, draw(st.sampled_from([1, 2, 3, 3, 4, 4, 5, 6]))), (1, draw(st.sampled_from([8, 12, 14, 16, 18, 20, 30]))), (0, draw(st.integers(1, 8)))] + schedule[:8]
     return {'init': init, 'progs': progs, 'schedule': schedule, 'one_prefix': draw(st.booleans())}
 
 
